@@ -303,6 +303,23 @@ def add_offset_start_stream(env, res=None, directory: str = 'sy6', seconds: int 
     return spk
 
 
+def add_layout_variants_stream(env, res=None, directory: str = 'sy7') -> int:
+    """  sy7_a1_enc  encrypted, tfhd with an explicit (file-absolute) base_data_offset
+         sy7_a2      a free box between every moof and its mdat"""
+    from dlv.appenv import FIXTURES
+    fx = FIXTURES / 'bbb'
+    files = {'sy7_v1': (fx / 'bbb_v7.mp4').read_bytes(),
+             'sy7_v1_enc': (fx / 'bbb_v7_enc.mp4').read_bytes(),
+             'sy7_a1_enc': restructure((fx / 'bbb_a1_enc.mp4').read_bytes(), explicit_base=True),
+             'sy7_a1': restructure((fx / 'bbb_a1.mp4').read_bytes(), free_before_mdat=12)}
+    for name, data in files.items():
+        assert len(ib.index_file(data).segments) == 10, name
+    spk = env.add_stream(directory, title='Synthetic: explicit base (encrypted), free before mdat', files=files)
+    if res is not None:
+        res.count('synthetic.streams')
+    return spk
+
+
 def add_retracked_video_stream(env, res=None, directory: str = 'vt5') -> int:
     """bbb with its video on track 5 (track ids only have to be unique within a stream): the video
     AdaptationSet of a manifest is numbered 1 whatever the track id is."""
@@ -324,7 +341,8 @@ def _patch_sizes(m: bytearray, chain: list, delta: int) -> None:
 
 def restructure(buf: bytes, first_sequence: int | None = None, drop_tfdt: bool = False,
                 explicit_base: bool = False, plain_base: bool = False,
-                senc_override: bytes | None = None, moof_pssh: bytes | None = None) -> bytes:
+                senc_override: bytes | None = None, moof_pssh: bytes | None = None,
+                free_before_mdat: int | None = None) -> bytes:
     """Re-lays a fragmented file out fragment by fragment (same payloads, same durations):
       first_sequence  mfhd sequence numbers count from this value instead of 1
       drop_tfdt       the tfdt box of every fragment is removed (decode times must be derived)
@@ -336,6 +354,7 @@ def restructure(buf: bytes, first_sequence: int | None = None, drop_tfdt: bool =
                       override fields in front of its sample count (first edition of 23001-7; the parser
                       under test reads and writes them)
       moof_pssh       this (pssh) box becomes the last child of the first moof box
+      free_before_mdat  a free box with that many payload bytes separates every moof from its mdat
     sidx referenced sizes, trun data offsets and saio offsets are kept consistent with the new layout."""
     root = ib.parse_file(buf)
     out = bytearray()
@@ -400,6 +419,8 @@ def restructure(buf: bytes, first_sequence: int | None = None, drop_tfdt: bool =
             m += moof_pssh
             delta += len(moof_pssh)
             moof_pssh = None
+        if free_before_mdat is not None:
+            delta += 8 + free_before_mdat
         if delta or senc_override is not None:
             local = ib.parse_file(bytes(m)).children[0]
             so, se = local.find(b'traf', b'saio'), local.find(b'traf', b'senc')
@@ -426,6 +447,8 @@ def restructure(buf: bytes, first_sequence: int | None = None, drop_tfdt: bool =
                 struct.pack_into('>I', out, ref, (word & 0x80000000) | ((word & 0x7FFFFFFF) + delta))
         pending_sidx = None
         out += m
+        if free_before_mdat is not None:
+            out += struct.pack('>I', 8 + free_before_mdat) + b'free' + b'\0' * free_before_mdat
     for field_off, moof_pos in bases:
         struct.pack_into('>Q', out, field_off, moof_pos)
     return bytes(out)
